@@ -1761,7 +1761,12 @@ class Method:
             else:
                 params.add(body)
 
-        return set(self.input.fields) - params
+        # `params` holds proto field names; the keys of `input.fields` may carry
+        # the reserved-word suffix (`license_`), so compare on the proto name.
+        return {
+            name for name, field in self.input.fields.items()
+            if field.field_pb.name not in params
+        }
 
     @property
     def body_fields(self) -> Mapping[str, Field]:
